@@ -149,7 +149,8 @@ CLAIMED = {
                   "validity queries (z3 nlsat + cvc5 portfolio)",
         design="3.3"),
     "C13": dict(
-        text="The real TreeStateHandler/TreePhysicalState/TreeLiftingState run on trees (1-3 roots x 0-3 children) "
+        text="The real TreeStateHandler/TreePhysicalState/TreeLiftingState run on trees (1-3 roots x 0-3 children, "
+             "including two-level trees with a single child per root) "
              "whose every stored number is a distinct symbol; for every choice of two extracted branches, every unit "
              "and 7 kinds of in-place/replacing mutation, insertion and a fresh extraction, the solver proves that "
              "all values read from the global state, from the other branch and from the fresh branch equal a "
@@ -190,15 +191,18 @@ CLAIMED = {
              "every commit: event times never decrease; every unit's position at the event time equals its previous "
              "trajectory (mod L), resting units do not move; positions stay in the box; identities and charges "
              "unchanged; exactly one moving chain (one leaf or all leaves of one root) sharing one velocity of the "
-             "initial speed.",
-        note="Bounded: K committed events per configuration (quick 1-4, thorough 1-5; table in props/runcheck.py and in the evidence), the shipped 2 (or 1) root nodes, reduced cell grids, list scheduler with an argmin oracle (tied to the schedulers by C06), Time comparisons by exact value (C14), exact 1/n node weights, stub potentials/estimators (any displacement >= 0, any derivative), random draws symbolic; molecules assumed compact (members within a quarter box of the composite position). Counterexamples are confirmed by concrete re-execution of the real main loop at the model's values.",
+             "initial speed. In addition the real CellBoundaryEventHandler step in non-cubic boxes (1.0 x 2.0, 2.0 x "
+             "1.0) and the real BasicEventHandler._time_slice_unit in five hypercuboid boxes of different side "
+             "orderings: the position is the old one advanced by velocity x elapsed time modulo the box and lies in "
+             "the box, the time stamp becomes the event time.",
+        note="Bounded: K committed events per configuration (quick 1-4, thorough 1-5) plus quiet-prefix slices of longer histories (K up to 6 with the first K-1 commits restricted to own-clock handlers: start of run, sampling, end of chain, end of run, mode switch; tables in props/runcheck.py and in the evidence), the shipped 2 (or 1) root nodes, reduced cell grids, list scheduler with an argmin oracle (tied to the schedulers by C06), Time comparisons by exact value (C14), exact 1/n node weights, stub potentials/estimators (any displacement >= 0, any derivative), random draws symbolic; molecules assumed compact in the C12 runs (members within a quarter box of the composite position). Counterexamples are confirmed by concrete re-execution of the real main loop at the model's values.",
         technique='bounded symbolic execution of the real main loop (SingleProcessMediator.run built by the real factory from every shipped .ini) with all event orders enumerated by the explorer; one QF_LIRA validity query per property and path',
         design="3.7 / 3.8"),
     "C08": dict(
         text="On the same runs: whenever an interaction or cell-veto handler is committed, every unit of the in-state "
              "its candidate time was computed from (snapshot taken at send_event_time) still has the same velocity "
              "in the global state and lies on the same straight-line trajectory (same position if at rest).",
-        note="Bounded: K committed events per configuration (quick 1-4, thorough 1-5; table in props/runcheck.py and in the evidence), the shipped 2 (or 1) root nodes, reduced cell grids, list scheduler with an argmin oracle (tied to the schedulers by C06), Time comparisons by exact value (C14), exact 1/n node weights, stub potentials/estimators (any displacement >= 0, any derivative), random draws symbolic; molecules assumed compact (members within a quarter box of the composite position). Counterexamples are confirmed by concrete re-execution of the real main loop at the model's values.",
+        note="Bounded: K committed events per configuration (quick 1-4, thorough 1-5) plus quiet-prefix slices of longer histories (K up to 6 with the first K-1 commits restricted to own-clock handlers: start of run, sampling, end of chain, end of run, mode switch; tables in props/runcheck.py and in the evidence), the shipped 2 (or 1) root nodes, reduced cell grids, list scheduler with an argmin oracle (tied to the schedulers by C06), Time comparisons by exact value (C14), exact 1/n node weights, stub potentials/estimators (any displacement >= 0, any derivative), random draws symbolic; molecules assumed compact in the C12 runs (members within a quarter box of the composite position). Counterexamples are confirmed by concrete re-execution of the real main loop at the model's values.",
         technique='bounded symbolic execution of the real main loop (SingleProcessMediator.run built by the real factory from every shipped .ini) with all event orders enumerated by the explorer; one QF_LIRA validity query per property and path',
         design="3.8"),
     "C09": dict(
@@ -206,15 +210,17 @@ CLAIMED = {
              "the multiset of in-state identifier tuples of its running handlers equals what a fresh call of the "
              "tagger yields for the current active state; every other tagger has as many pending events as it would "
              "generate; handler pools are disjoint, complete and never exhausted.",
-        note="Bounded: K committed events per configuration (quick 1-4, thorough 1-5; table in props/runcheck.py and in the evidence), the shipped 2 (or 1) root nodes, reduced cell grids, list scheduler with an argmin oracle (tied to the schedulers by C06), Time comparisons by exact value (C14), exact 1/n node weights, stub potentials/estimators (any displacement >= 0, any derivative), random draws symbolic; molecules assumed compact (members within a quarter box of the composite position). Counterexamples are confirmed by concrete re-execution of the real main loop at the model's values.",
+        note="Bounded: K committed events per configuration (quick 1-4, thorough 1-5) plus quiet-prefix slices of longer histories (K up to 6 with the first K-1 commits restricted to own-clock handlers: start of run, sampling, end of chain, end of run, mode switch; tables in props/runcheck.py and in the evidence), the shipped 2 (or 1) root nodes, reduced cell grids, list scheduler with an argmin oracle (tied to the schedulers by C06), Time comparisons by exact value (C14), exact 1/n node weights, stub potentials/estimators (any displacement >= 0, any derivative), random draws symbolic; molecules assumed compact in the C12 runs (members within a quarter box of the composite position). Counterexamples are confirmed by concrete re-execution of the real main loop at the model's values.",
         technique='bounded symbolic execution of the real main loop (SingleProcessMediator.run built by the real factory from every shipped .ini) with all event orders enumerated by the explorer; one QF_LIRA validity query per property and path',
         design="3.8"),
     "C12": dict(
         text="On the same runs, at every commit and for every composite object: stored velocity == weighted sum of "
              "its members' velocities (absent iff none moves) and stored position advanced to the event time == "
              "weighted barycentre of the members' nearest images advanced to the event time.",
-        note="Bounded: K committed events per configuration (quick 1-4, thorough 1-5; table in props/runcheck.py and in the evidence), the shipped 2 (or 1) root nodes, reduced cell grids, list scheduler with an argmin oracle (tied to the schedulers by C06), Time comparisons by exact value (C14), exact 1/n node weights, stub potentials/estimators (any displacement >= 0, any derivative), random draws symbolic; molecules assumed compact (members within a quarter box of the composite position). Counterexamples are confirmed by concrete re-execution of the real main loop at the model's values." + " The real random molecule creators (direction x length products) are replaced by an arbitrary "
-             "molecule satisfying the invariant; that the creators establish it is not decided here.",
+        note="Bounded: K committed events per configuration (quick 1-4, thorough 1-5) plus quiet-prefix slices of longer histories (K up to 6 with the first K-1 commits restricted to own-clock handlers: start of run, sampling, end of chain, end of run, mode switch; tables in props/runcheck.py and in the evidence), the shipped 2 (or 1) root nodes, reduced cell grids, list scheduler with an argmin oracle (tied to the schedulers by C06), Time comparisons by exact value (C14), exact 1/n node weights, stub potentials/estimators (any displacement >= 0, any derivative), random draws symbolic; molecules assumed compact in the C12 runs (members within a quarter box of the composite position). Counterexamples are confirmed by concrete re-execution of the real main loop at the model's values." + " The real random molecule creators (direction x length products) are replaced by an arbitrary "
+             "molecule satisfying the invariant in the runs; that the real DipoleRandomNodeCreator establishes it "
+             "(stored position == barycentre of the point masses' nearest images modulo the box, all in the box) "
+             "is decided by the creator part on symbolic random draws.",
         technique='bounded symbolic execution of the real main loop (SingleProcessMediator.run built by the real factory from every shipped .ini) with all event orders enumerated by the explorer; one QF_LIRA validity query per property and path',
         design="3.8 / 3.12"),
 }
